@@ -40,7 +40,7 @@ def has_scheduled_jump(noise_model: NoiseModel | None, time: float, dt: float) -
     if noise_model is None or not noise_model.scheduled_jumps:
         return False
 
-    return any(np.isclose(jump["time"], time, atol=dt * 1e-3) for jump in noise_model.scheduled_jumps)
+    return any(np.isclose(jump["time"], time, rtol=0.0, atol=dt * 1e-3) for jump in noise_model.scheduled_jumps)
 
 
 def apply_scheduled_jumps(
@@ -67,7 +67,7 @@ def apply_scheduled_jumps(
         return state
 
     for jump in noise_model.scheduled_jumps:
-        if np.isclose(jump["time"], time, atol=sim_params.dt * 1e-3):
+        if np.isclose(jump["time"], time, rtol=0.0, atol=sim_params.dt * 1e-3):
             sites = jump["sites"]
             jump_op = jump["matrix"]
 
